@@ -129,7 +129,7 @@ check(
     'iteration budget and logged values are judged on the recorded history; with an increment tolerance (e_tol) a stop above restol is accepted only if the harness\'s own '
     'increment of that step\'s last iteration is below it; NaN soft faults (a residual that is not a number is not at most the tolerance).',
     'Sampling. Known finding F08 (finished at iteration 0 without a sweep) is reported as KNOWN-FINDING. Soft faults are never placed between '
-    'the computation of a residual and the decision taken on it. imex_1st_order_mass and multi_implicit are driven on harness-owned problem '
+    'the computation of a residual and the decision taken on it. imex_1st_order_mass (one or two levels, real base_transfer_mass with a harness-owned identity space transfer) and multi_implicit are driven on harness-owned problem '
     'classes (sim/massproblem.py, listed as stubs). MPI flavour: C08.',
     'deterministic simulation: seeded soft-fault and convergence histories on the real controller, invariant checked at every callback against an independent re-evaluation',
     'DESIGN 3 (C03)',
@@ -145,7 +145,8 @@ check(
     'end value of the previous step: |uend - uend_ref| <= kappa_end*(actual defect) + derived rounding.',
     'Sampling; linear/affine problems only (A, b(t) probed from a shadow instance). The bound is a consequence of linear algebra for any state, '
     'so it detects end values/defects inconsistent with the node values, not slow convergence; a second clause judges steps whose REPORTED '
-    'residual meets restol against kappa*restol, a third one requires that two consecutive converged steps are chained (start value within 10*restol of the predecessor\'s end value). multi_implicit is driven on a harness-owned two-part problem. Known finding F12. MPI flavour: C08.',
+    'residual meets restol against kappa*restol, a third one requires that two consecutive converged steps are chained (start value within 10*restol of the predecessor\'s end value). A fixed-point probe (soft fault: the first step of a block is put onto its fine collocation solution before an iteration) must end on that solution.'
+    '  multi_implicit is driven on a harness-owned two-part problem. Known finding F12. MPI flavour: C08.',
     'deterministic simulation: seeded soft-fault injection into multi-level multi-step runs, refinement check against an executable reference model',
     'DESIGN 3 (C01)',
 )
